@@ -146,11 +146,13 @@ class MatVal:
         a, b = self.t, o.t
         if a.numel() != b.numel():
             return False
+        # tolerance of the less precise of the two operands (values are compared as reals: DESIGN 4.5)
+        tol = max({torch.float16: 4e-3, torch.bfloat16: 3e-2, torch.float64: 1e-9}.get(x.dtype, 1e-5) for x in (a, b))
         a, b = a.reshape(-1).double(), b.reshape(-1).double()
         if a.numel() == 0:
             return True
         scale = max(float(a.abs().max()), float(b.abs().max()), 1e-30)
-        return bool(((a - b).abs().max() / scale) <= 1e-5) or bool(torch.equal(a, b))
+        return bool(((a - b).abs().max() / scale) <= tol) or bool(torch.equal(a, b))
 
     def __ne__(self, o):
         r = self.__eq__(o)
@@ -306,7 +308,12 @@ H.rank, H.world, H.trace_log = 0, 1, []
 
 
 def _members(group):
-    return getattr(group, 'ranks', None) if group is not None else range(H.world)
+    if group is None:
+        return range(H.world)
+    if hasattr(group, 'ranks'):
+        return group.ranks
+    import torch.distributed as dist     # a real ProcessGroup
+    return dist.get_process_group_ranks(group)
 
 
 FUNCS.update({
@@ -315,6 +322,7 @@ FUNCS.update({
     'in_group': lambda g: True if g is None else (H.rank in _members(g)),
     'rank_in_group': lambda r, g: (0 <= r < H.world) if g is None else (r in _members(g)),
     'group_size': lambda g: H.world if g is None else len(list(_members(g))),
+    'group_members': lambda g: frozenset(_members(g)),
     'trace': lambda: list(H.trace_log),
     'is_fresh': lambda x: True,
     'wa_inv_worker': lambda a, l, f: a.inv_worker(l, f),
@@ -369,3 +377,44 @@ def _second_order_consistent(layer, damping):
 
 
 FUNCS['second_order_consistent'] = _second_order_consistent
+
+
+def _allsum_rt(v, group):
+    """Run-time meaning of allsum(v, group): a real all_reduce of a float64 copy on that group (every member
+    evaluates the clause, so the collective is matched); outside torch.distributed: the value itself."""
+    import torch
+    import torch.distributed as dist
+    t = _m(v).detach().clone().double()
+    if dist.is_available() and dist.is_initialized() and (group is None or dist.get_rank() in _members(group)):
+        if len(list(_members(group))) > 1:
+            H.in_oracle = True
+            try:
+                dist.all_reduce(t, group=group)
+            finally:
+                H.in_oracle = False
+    return MatVal(t)
+
+
+FUNCS['allsum'] = _allsum_rt
+FUNCS['vals'] = lambda ts: [MatVal(t.detach().clone()) for t in ts]
+
+
+def install_trace_hooks():
+    """Record every collective the code under test issues (the run-time counterpart of the ghost trace)."""
+    import torch.distributed as dist
+    if getattr(dist, '_vp_traced', False):
+        return
+    dist._vp_traced = True
+    kinds = {'all_reduce': 1, 'broadcast': 2, 'barrier': 3, 'all_gather': 4, 'reduce_scatter': 5, 'all_gather_object': 6}
+    for name, kind in kinds.items():
+        orig = getattr(dist, name, None)
+        if orig is None:
+            continue
+
+        def wrapped(*a, __orig=orig, __kind=kind, __name=name, **k):
+            if not getattr(H, 'in_oracle', False):
+                t = a[0] if a and hasattr(a[0], 'nelement') else None
+                H.trace_log.append((__kind, k.get('group'), k.get('src', -1), t.nelement() if t is not None else 0,
+                                    t.dtype if t is not None else None))
+            return __orig(*a, **k)
+        setattr(dist, name, wrapped)
